@@ -186,6 +186,50 @@ def scan_assumptions(A):
     return hits
 
 
+# features that exist only for this machinery's instrumentation (MANIFEST.hooks): the verified configuration has them off
+INSTRUMENTATION_FEATURES = {"verif_hooks"}
+
+
+def cfg_coverage(cfg, items, ex):
+    """Conditional compilation inside the code under contract must stay inside what the unit's feature sets cover:
+    every `feature = ".."` named by a cfg INSIDE an extracted function / closure must be both on and off among the unit's
+    feature sets (else a configuration of that code is never verified), and any other predicate (debug_assertions,
+    target_*, cfg!(), cfg_attr on code) is outside the model. Returns a reason for UNDECIDED or None."""
+    fsets = [set(f) for f in cfg.get("feature_sets", [])]
+    for it in items:
+        if it.get("kind") not in ("fn", "impl_fn", "closure", "await_match", "tail", "impl") or it.get("contract_only"):
+            continue
+        orig = (ex.get(it["name"]) or {}).get("orig", "")
+        # the item's own attributes (everything before its `fn` keyword) gate its existence, not its behaviour
+        m = re.search(r'\bfn\b', orig)
+        body = orig[m.start():] if (m and it.get("kind") in ("fn", "impl_fn")) else orig
+        body = re.sub(r'//[^\n]*', '', body)
+        if re.search(r'\bcfg!\s*\(', body):
+            return f"cfg-outside-the-feature-model:{it['name']}:cfg!() in code"
+        for a in re.finditer(r'#\s*\[\s*(cfg|cfg_attr)\s*\(', body):
+            i = a.end()
+            depth = 1
+            while i < len(body) and depth:
+                depth += body[i] == "("
+                depth -= body[i] == ")"
+                i += 1
+            pred = body[a.end():i - 1]
+            if a.group(1) == "cfg_attr":
+                if re.match(r'\s*coverage_nightly\s*,\s*coverage\(off\)\s*$', pred):
+                    continue
+                return f"cfg-outside-the-feature-model:{it['name']}:cfg_attr({pred[:60]})"
+            rest = re.sub(r'feature\s*=\s*"[^"]*"', '', pred)
+            atoms = [w for w in re.findall(r'[A-Za-z_][A-Za-z0-9_]*', rest) if w not in ("all", "any", "not")]
+            if atoms:
+                return f"cfg-outside-the-feature-model:{it['name']}:cfg({pred[:60]})"
+            for f in re.findall(r'feature\s*=\s*"([^"]*)"', pred):
+                if f in INSTRUMENTATION_FEATURES:
+                    continue
+                if not (any(f in s_ for s_ in fsets) and any(f not in s_ for s_ in fsets)):
+                    return f"feature-not-varied:{it['name']}:the code under contract is compiled differently with and without `{f}` but the unit is verified under {sorted(map(sorted, fsets))} only"
+    return None
+
+
 def run_unit(unit, repo, outdir, seed=0, features=None, canary=True, rlimit=None):
     """Extract, assemble, verify one unit under one feature set. Returns a result dict."""
     ud = os.path.join(VERIF, "units", unit)
@@ -195,7 +239,11 @@ def run_unit(unit, repo, outdir, seed=0, features=None, canary=True, rlimit=None
     t0 = time.time()
     tag = unit + "_" + "_".join(features)
     try:
-        ex = run_extract(repo, features, unit_items(cfg, features), outdir)
+        items_ = unit_items(cfg, features)
+        ex = run_extract(repo, features, items_, outdir)
+        bad = cfg_coverage(cfg, items_, ex)
+        if bad:
+            raise Undecided(bad)
         preludes = [os.path.join(VERIF, "prelude", p) for p in cfg["prelude"]]
         for feat, extra in cfg.get("prelude_if", {}).items():
             if feat in features:
